@@ -255,12 +255,13 @@ def _symmetry_detail(fn, prm, R):
             d = {"max_real": float(np.abs(R.real).max()), "tol": tol}
         return None if d is None else dict(d, kind="not-hermitian")
     if fn == "eri":
-        chem = R if prm.get("notation", "chemist") == "chemist" else R.transpose(0, 2, 1, 3)
-        tol = 1e-10 * max(1.0, float(np.abs(chem).max()))
+        phys = prm.get("notation", "chemist") != "chemist"
+        chem = R.transpose(0, 2, 1, 3) if phys else R
+        tol = _perm_tolerance("eri", {"notation": "chemist"}, chem)     # 1e-6 x Schwarz + rounding floor
         for name, ax in (("(ba|cd)", (1, 0, 2, 3)), ("(ab|dc)", (0, 1, 3, 2)), ("(cd|ab)", (2, 3, 0, 1))):
             d = worst_diff(chem, chem.transpose(ax), tol)
             if d is not None:
-                return dict(d, kind="not-eightfold", which=name)
+                return dict(d, kind="not-eightfold", which=name, index_is="chemist")
     return None
 
 
@@ -273,6 +274,27 @@ def _perm_tolerance(fn, prm, R0):
         tol = 1e-6 * dg[:, :, None, None] * dg[None, None, :, :] + 1e-13 * max(1.0, float(np.abs(chem).max()))
         return tol if prm.get("notation", "chemist") == "chemist" else tol.transpose(0, 2, 1, 3)
     return PERM_TOL.get(fn, 1e-10) * max(1.0, float(np.abs(R0).max()) if R0.size else 1.0)
+
+
+def _eri_annotate(d, R0, prm, nfs, ip, where_chem):
+    """add the shell quartet (positions in the ORIGINAL basis, chemists' order) and the largest Schwarz product
+    of its block to an ERI detail; d["index"] refers to an array whose basis index x is original index ip[x]"""
+    if d is None or "index" not in d or len(d["index"]) != 4:
+        return d
+    phys = prm.get("notation", "chemist") != "chemist"
+    idx = list(d["index"])
+    if phys and not where_chem:
+        idx = [idx[0], idx[2], idx[1], idx[3]]
+    old = [ip[x] for x in idx]
+    offs = [0]
+    for n in nfs:
+        offs.append(offs[-1] + n)
+    quartet = [max(k for k in range(len(nfs)) if offs[k] <= x) for x in old]
+    chem = R0.transpose(0, 2, 1, 3) if phys else R0
+    def dmax(i, j):
+        return max(math.sqrt(abs(chem[a, b, a, b])) for a in range(offs[i], offs[i + 1])
+                   for b in range(offs[j], offs[j + 1]))
+    return dict(d, quartet=quartet, schwarz_block_max=dmax(quartet[0], quartet[1]) * dmax(quartet[2], quartet[3]))
 
 
 def eval_perm(model, case):
@@ -302,6 +324,8 @@ def eval_perm(model, case):
     out = {"nontrivial": nontriv, "tag": tag, "stats": stats, "detail": None}
     d = _symmetry_detail(fn, prm, R0)
     if d is not None:
+        if fn == "eri":
+            d = _eri_annotate(d, R0, prm, nfs, list(range(ntot)), True)
         out["detail"] = dict(d, where="original order")
         return out
     tol = _perm_tolerance(fn, prm, R0)
@@ -332,11 +356,15 @@ def eval_perm(model, case):
         tolp = take_axes(tol, ips) if isinstance(tol, np.ndarray) else tol
         d = worst_diff(Rp, expect, tolp)
         if d is not None:
+            if fn == "eri":
+                d = _eri_annotate(d, R0, prm, nfs, ip, False)
             out["detail"] = dict(d, kind=d.get("kind", "permutation"), perm=perm,
                                  note="a = array of the permuted basis, b = index-permuted array of the original basis")
             return out
         d = _symmetry_detail(fn, prm_p, Rp)
         if d is not None:
+            if fn == "eri":
+                d = _eri_annotate(d, R0, prm, nfs, ip, True)
             out["detail"] = dict(d, perm=perm, where="permuted order")
             return out
         if case.get("model") and first and model is not None:
@@ -623,17 +651,30 @@ def known(case, detail):
     2200 random quartets).  Only calls with eri_amp >= 9e5 can therefore exceed the 1e-6 tolerance and stay
     'known': a tight bra pair with a diffuse high-l ket pair, or a bra pair whose first shell is diffuse and far
     from a tight partner.  EVERY deviating orientation of the case must qualify, otherwise it is a violation;
-    without the entry in KNOWN_FINDINGS.json nothing is suppressed."""
+    without the entry in KNOWN_FINDINGS.json nothing is suppressed.  For electron_repulsion_integral on a permuted
+    basis the same bound is applied to the shell quartet of the deviating element (worst of its 8 orientations)."""
     ent = _known_entry()
-    if not ent or case.get("kind") != "eri8" or detail.get("kind") != "orientation-eri":
+    if not ent:
         return None
     C = float(ent.get("predicate_constant", 1e4))
-    shells = [XShell.from_json(s) for s in case["shells"]]
-    for b in detail["bad"]:
-        amp = eri_amp(shells, tuple(b["orient"]))
-        if not (b["dev_block"] <= C * EPS * amp):
-            return None
-    return "%s: %s" % (KNOWN_ID, ent.get("text", ""))
+    text = "%s: %s" % (KNOWN_ID, ent.get("text", ""))
+    if case.get("kind") == "eri8" and detail.get("kind") == "orientation-eri":
+        shells = [XShell.from_json(s) for s in case["shells"]]
+        for b in detail["bad"]:
+            amp = eri_amp(shells, tuple(b["orient"]))
+            if not (b["dev_block"] <= C * EPS * amp):
+                return None
+        return text
+    if case.get("kind") == "perm" and case.get("fn") == "eri" and detail.get("kind") in ("permutation", "not-eightfold") \
+            and "quartet" in detail:
+        # the assembled array: the code evaluates ONE orientation of every shell quartet, which one depends on the
+        # order of the shells; the element may differ by what the worst orientation of that quartet can lose
+        basis = [XShell.from_json(s) for s in case["basis"]]
+        q4 = [basis[k] for k in detail["quartet"]]
+        amp = max(eri_amp(q4, o) for o in ERI_ORIENTS)
+        if detail["abs_diff"] <= C * EPS * amp * detail["schwarz_block_max"]:
+            return text
+    return None
 
 
 # ------------------------------------------------------------------------------------------------
@@ -744,7 +785,7 @@ def gen_perm_cases(tier, rng):
     cases = []
     quick = tier == "quick"
     # ---- two-index and one-index functions: every function x every shell count ----
-    reps = {2: 1, 3: 1, 4: 1, 5: 1} if quick else {2: 24, 3: 24, 4: 14, 5: 8}
+    reps = {2: 1, 3: 1, 4: 1, 5: 1} if quick else {2: 60, 3: 60, 4: 36, 5: 20}
     for n in (2, 3, 4, 5):
         for rep_i in range(reps[n]):
             for fn in TWO_FNS + ONE_FNS:
@@ -762,7 +803,7 @@ def gen_perm_cases(tier, rng):
                                   "prm": prm, "model": bool(ci == 0 and (small or rep_i == 0 and n <= 3))})
     # ---- overlap_asymmetric: two bases permuted independently ----
     for n1, n2 in ([(2, 3), (3, 2)] if quick else
-                   3 * [(2, 2), (2, 3), (3, 2), (3, 3), (4, 2), (1, 4), (2, 4), (3, 4), (4, 4), (2, 5)]):
+                   8 * [(2, 2), (2, 3), (3, 2), (3, 3), (4, 2), (1, 4), (2, 4), (3, 4), (4, 4), (2, 5)]):
         both = gen_perm_basis(rng, n1 + n2, lmax=3, nf_cap=40)
         b1, b2 = both[:n1], both[n1:]
         ps1 = [list(p) for p in itertools.permutations(range(n1))]
@@ -777,7 +818,7 @@ def gen_perm_cases(tier, rng):
         [(2, [0, 1], 2), (2, [1, 2], 2), (2, [0, 2], 3), (3, [0, 1, 1], 2), (3, [0, 1, 2], 2), (3, [1, 1, 2], 1),
          (3, [0, 0, 3], 1), (4, [0, 0, 1, 1], 2), (4, [0, 1, 1, 2], 1), (5, [0, 0, 0, 1, 1], 1)]
     if not quick:
-        eri_specs = 3 * eri_specs + [(3, [0, 2, 2], 1), (4, [0, 1, 2, 2], 1), (4, [0, 0, 1, 3], 1), (5, [0, 0, 1, 1, 2], 1)]
+        eri_specs = 8 * eri_specs + 3 * [(3, [0, 2, 2], 1), (4, [0, 1, 2, 2], 1), (4, [0, 0, 1, 3], 1), (5, [0, 0, 1, 1, 2], 1)]
     for n, ls, mmax in eri_specs:
         wide = max(ls) < 3
         shells = gen_perm_basis(rng, n, lset=ls, kmax=2, mmax=mmax, exp_lo=0.1 if wide else 0.2,
@@ -797,7 +838,7 @@ def gen_orient_cases(tier, rng):
     cases = []
     quick = tier == "quick"
     ops = ["overlap", "kinetic", "moment", "momentum", "angmom", "pointcharge"]
-    reps = 1 if quick else 16
+    reps = 1 if quick else 48
     for rep_i in range(reps):
         for la, lb in itertools.product(range(4), range(4)):
             for op in ops:
@@ -824,7 +865,7 @@ def gen_orient_cases(tier, rng):
                 if op == "pointcharge":
                     prm = {"pts": twoindex_place(rng, [sa.coord, sb.coord], rng.randint(1, 3))}
                 cases.append({"kind": "orient", "op": op, "a": sa.to_json(), "b": sb.to_json(), "prm": prm,
-                              "model": bool(rep_i < 4 and (la + lb) <= 4 and rng.random() < (0.35 if quick else 0.6))})
+                              "model": bool(rep_i < 8 and (la + lb) <= 4 and rng.random() < (0.35 if quick else 0.6))})
     return cases
 
 
@@ -847,7 +888,7 @@ def gen_eri8_cases(tier, rng):
     if quick:
         pats = rng.sample(pats, 22)
     else:
-        pats = pats + pats                       # every l pattern with total L <= 6, twice
+        pats = 6 * pats                          # every l pattern with total L <= 6, six times
     for p in pats:
         L = sum(p)
         shells = [gen_shell(rng, l=l, kmax=2 if L <= 4 else 1, mmax=2 if L <= 3 else 1, sph=False,
@@ -865,7 +906,7 @@ def gen_eri8_cases(tier, rng):
     # tight core s/p pair x diffuse p/d/f pair (the pattern of a heavy atom next to a diffuse-augmented one)
     specs = [((0, 0), (1, 1)), ((0, 0), (2, 2)), ((0, 0), (2, 3)), ((0, 1), (2, 2)), ((0, 0), (3, 3)),
              ((1, 1), (2, 2)), ((0, 0), (0, 2)), ((0, 1), (1, 3))]
-    nrep = 1 if quick else 12
+    nrep = 1 if quick else 40
     for rep_i in range(nrep):
         for lt, ld in specs:
             if quick and sum(lt) + sum(ld) > 6:
